@@ -659,6 +659,7 @@ type PathFact struct {
 	Cond string
 	Val  bool
 	v    ssa.Value // the (phi-resolved) condition value; identity decides contradictions
+	gen  int       // how often the block defining v had been entered when the fact was recorded
 }
 
 // PathRender renders a value in the context of the current path.
@@ -770,6 +771,16 @@ func (pe *pathEnum) walk(b *ssa.BasicBlock, pred *ssa.BasicBlock, env map[*ssa.P
 				pe.over = true
 				return
 			}
+			// facts about values whose defining block has been re-entered since
+			// (earlier loop iterations) say nothing about the current values
+			live := make([]PathFact, 0, len(facts))
+			for _, f := range facts {
+				if ci, ok := f.v.(ssa.Instruction); ok && ci.Block() != nil && f.gen != seen[ci.Block()] {
+					continue
+				}
+				live = append(live, f)
+			}
+			facts := live
 			if pe.visitR != nil {
 				envc, cellsc := env, cells
 				pe.visitR(facts, trace, in, func(v ssa.Value) string {
@@ -832,18 +843,33 @@ func (pe *pathEnum) walk(b *ssa.BasicBlock, pred *ssa.BasicBlock, env map[*ssa.P
 		if neg {
 			cneg = !cneg
 		}
+		// generation of the condition value: a value is re-evaluated each time
+		// its defining block is re-entered (loops), so an earlier fact about it
+		// is only binding within the same generation
+		gen := 0
+		if ci, ok := cond.(ssa.Instruction); ok && ci.Block() != nil {
+			gen = seen[ci.Block()]
+		}
 		for i, sb := range b.Succs {
 			val := (i == 0) != cneg
 			contra := false
 			for _, f := range facts {
-				if f.v == cond && f.Val != val {
-					contra = true // the same SSA value cannot be both true and false on one path
+				if f.v == cond && f.gen == gen && f.Val != val {
+					contra = true // the same evaluation cannot be both true and false on one path
 				}
 			}
 			if contra {
 				continue // contradicts an earlier fact on the same operands
 			}
-			nf := append(append([]PathFact{}, facts...), PathFact{canon, val, cond})
+			// a re-evaluation supersedes the earlier fact with the same canonical text
+			nf := make([]PathFact, 0, len(facts)+1)
+			for _, f := range facts {
+				if f.Cond == canon && f.v == cond && f.gen != gen {
+					continue
+				}
+				nf = append(nf, f)
+			}
+			nf = append(nf, PathFact{canon, val, cond, gen})
 			pe.walk(sb, b, env, cells, nf, trace, seen)
 		}
 	default:
